@@ -21,6 +21,16 @@ CHECKS = {
          "Histories with several signings in flight, idle/lazy members, nonce starvation, same-block aggregation+expiry and parameter changes are executed through real ABCI; each block the monitor compares chain state and events with what the submissions it saw accepted imply.",
          "Exact time-out height and penalty set asserted only while tss params are unchanged (the property says so); 'eventually terminates' restated as terminal within max_attempts*period+1 blocks.",
          "DESIGN.md 2/C10"),
+ "C03": ("exploration",
+         "runtime monitoring: pkg/tss and on-chain MsgSubmitSignature driven with honest and single-component-corrupted shares; oracles = intent tags + two independent signature verifiers (curve arithmetic, ecrecover form) + big.Int Lagrange reference (exhaustive over 2^20 subsets in thorough)",
+         "Library layer: random Shamir sharings with member ids up to 2^20 and committees >= threshold; every share and combined signature is cross-checked, six corruptions per case must be rejected. Chain layer: TSS groups by real DKG (sizes 1..25), shares tagged honest/corrupt-z/R/memberid/message/committee/nonce/not-assigned/replay/duplicate must be accepted iff honest; every published signature re-verified independently.",
+         "Trusts decred secp256k1 and go-ethereum Ecrecover inside the reference verifiers. 'Any threshold-sized committee' is sampled, not enumerated.",
+         "DESIGN.md 2/C03"),
+ "C13": ("exploration",
+         "runtime monitoring: ledger models (sequential fee collection for data requests; escrow/payout ledger for signings) compared with every tracked account balance after every block",
+         "Data requests: repeated sources, multi-denom fee vectors, limits one unit short/exact/denom missing, poor payer failing at the k-th transfer, payer that is a treasury. Signings: limits at cost-1/cost/cost+, zero and multi-denom fee_per_signer, poor requester, retries and fallen signings; payouts only to the assigned members of the completing attempt; rejected requests move nothing.",
+         "Worlds run with zero tx fees and no inflation so that balance deltas are exactly service fees. Incoming-group (unpaid) signings are monitored under C18; oracle-result signings under C08's union world.",
+         "DESIGN.md 2/C13"),
 }
 NA_REASON = "check not built yet (work in progress; see DESIGN.md section 2)"
 
